@@ -344,4 +344,32 @@ PROPS = {
             {"pkg": "pkg/packet/bfd", "kind": "fuzz", "test": "FuzzVerifC19_bfd", "fuzz_seconds": 60},
         ],
     },
+    "C18": {
+        "level": "exploration",
+        "claim": ("Conversion round trips over generated values: (attr, nlri, cap) every path attribute type (23 types, 27 ext-community "
+                  "kinds, tunnel-encap sub-TLVs, 36 BGP-LS TLVs, PREFIX_SID, PMSI, AIGP, MP_REACH/UNREACH x 26 families), NLRI of 26 "
+                  "families and 14 capability types from the codec generators: native -> API -> native' must serialise to the same "
+                  "octets and API -> native -> API' must be proto.Equal; (policy) generated defined sets, statements with every "
+                  "condition/action kind, policies and assignments added through the API of a running BgpServer are listed back and "
+                  "compared with strings computed by the generator from the documented rules; (path) routes of 10 families added with "
+                  "AddPath are listed back with the same NLRI, identifier and attribute set; (peer) neighbour configuration "
+                  "API -> native -> API."),
+        "note": ("17 conversions that cannot be lossless without an API (proto) change or whose root cause is a deliberate "
+                 "config-model convention are listed as open known findings and excluded from generation; every one has a "
+                 "deterministic probe."),
+        "technique": "property-based testing (rapid) with recipe generators: two-directional conversion round trip (bytes equality / proto.Equal); API add/list round trip against a running server",
+        "rule": ("non-trivial when the converted value has at least one nested element (attribute with sub-values, NLRI with "
+                 "optional parts, statement with a condition and an action); distinct by case hash"),
+        "assumptions": [],
+        "units": [
+            {"pkg": "pkg/apiutil", "test": "TestVerifC18_attr", "quick": (8, 20000), "thorough": (16, 400000)},
+            {"pkg": "pkg/apiutil", "test": "TestVerifC18_nlri", "quick": (8, 20000), "thorough": (16, 400000)},
+            {"pkg": "pkg/apiutil", "test": "TestVerifC18_cap", "quick": (4, 4000), "thorough": (16, 200000)},
+            {"pkg": S, "test": "TestVerifC18_policy", "quick": (16, 300), "thorough": (16, 4000), "timeout_q": 1500},
+            {"pkg": S, "test": "TestVerifC18_path", "quick": (16, 300), "thorough": (16, 4000), "timeout_q": 1500},
+            {"pkg": S, "test": "TestVerifC18_peer", "quick": (8, 2000), "thorough": (16, 100000)},
+            {"pkg": "pkg/apiutil", "kind": "fuzz", "test": "FuzzVerifC18_attr", "fuzz_seconds": 240},
+            {"pkg": "pkg/apiutil", "kind": "fuzz", "test": "FuzzVerifC18_nlri", "fuzz_seconds": 240},
+        ],
+    },
 }
